@@ -8,7 +8,10 @@ Inductive case :=
 | UReq (r : req) (hcode : Z) (obs : ureply) (panicked : bool)
 | SReq (r : req) (nsend : Z) (hcode : Z) (obs_status : Z) (obs_allow : bool) (obs_calls : Z)
        (obs_data obs_trailers : Z) (trailer_last : bool) (trailer_code : Z) (panicked : bool)
-| NotFoundCase (status : Z) (calls : Z).   (* unknown path through the server's mux *)
+| NotFoundCase (status : Z) (calls : Z)    (* unknown path through the server's mux *)
+      (* a streaming request body of [want] well-formed frames followed by a well-formed end (ok) or by a
+         malformed frame, read to the end by the handler: messages received, HTTP status, trailer code *)
+| SBody (ok : bool) (want seen : Z) (status : Z) (trailer_code : Z).
 
 Definition oz_eqb := option_eqb Z.eqb.
 
@@ -28,6 +31,7 @@ Definition check_case (k : case) : bool :=
               match last fs Data with Trailer c => tc =? c | Data => false end
       end
   | NotFoundCase st calls => (st =? 404) && (calls =? 0)
+  | SBody ok want seen st tc => (st =? 200) && (seen =? want) && (if ok then tc =? 0 else negb (tc =? 0) && (0 <? tc))
   end.
 
 (* the property on the observation, from the request alone *)
@@ -48,4 +52,5 @@ Definition oracle_case (k : case) : bool :=
        else (calls =? 1) && (st =? 200) && (nt =? 1) && tl && (nd =? n) &&
             (tc =? (if h =? 0 then 0 else if h =? 0 then 13 else h)))
   | NotFoundCase st calls => (st =? 404) && (calls =? 0)
+  | SBody ok want seen st tc => (seen <=? want) && (if ok then (tc =? 0) && (seen =? want) else 0 <? tc)
   end.
